@@ -1174,7 +1174,8 @@ KIT_S_JOBS = [
 def kit_s_split_obligations(repo):
     """Agreement of the two sides on where lines end: the expression that cuts `a` (and `b`) into the line lists handed to diff_lists
     in diff_strings_linewise, and the expression that cuts the string in flatten_list_of_string_diff, have the same shape
-    (e.g. `_.splitlines(True)` on both sides, or the same helper called the same way)."""
+    (e.g. `_.splitlines(True)` on both sides, or the same helper called the same way).
+    Returns (text, ok, kind); kind 'shape' = code not in the recognised form (no statement, the bounded round trip decides)."""
     import ast as _ast
     import os as _os
 
@@ -1197,11 +1198,11 @@ def kit_s_split_obligations(repo):
     d = fn_node('nbdime/diffing/sequences.py', 'diff_strings_linewise')
     f = fn_node('nbdime/diff_utils.py', 'flatten_list_of_string_diff')
     if d is None or f is None:
-        return [('diff_strings_linewise and flatten_list_of_string_diff exist', False)]
+        return [('diff_strings_linewise and flatten_list_of_string_diff exist', False, 'shape')]
     dparams = [x.arg for x in d.args.args]
     call = next((c for c in _ast.walk(d) if isinstance(c, _ast.Call) and _ast.unparse(c.func).split('.')[-1] == 'diff_lists'), None)
     if call is None or len(call.args) < 2 or len(dparams) < 2:
-        return [('diff_strings_linewise hands two line lists to diff_lists', False)]
+        return [('diff_strings_linewise hands two line lists to diff_lists', False, 'shape')]
     shapes = []
     for arg, var in zip(call.args[:2], dparams[:2]):
         expr = arg
@@ -1209,19 +1210,101 @@ def kit_s_split_obligations(repo):
             asg = [n for n in _ast.walk(d) if isinstance(n, _ast.Assign) and len(n.targets) == 1 and isinstance(n.targets[0], _ast.Name)
                    and n.targets[0].id == arg.id]
             if len(asg) != 1:
-                out.append(('the line list %s of diff_strings_linewise is assigned exactly once' % arg.id, False))
+                out.append(('the line list %s of diff_strings_linewise is assigned exactly once' % arg.id, False, 'shape'))
                 continue
             expr = asg[0].value
         uses = {n.id for n in _ast.walk(expr) if isinstance(n, _ast.Name)} & set(dparams)
-        out.append(('line list %d of diff_strings_linewise is cut from its own string only (%s)' % (len(shapes) + 1, _ast.unparse(expr)), uses == {var}))
+        out.append(('line list %d of diff_strings_linewise is cut from its own string only (%s)' % (len(shapes) + 1, _ast.unparse(expr)), uses == {var}, 'content'))
         shapes.append(shape(expr, var))
     if len(shapes) == 2:
-        out.append(('both strings are cut the same way on the diff side: %s / %s' % tuple(shapes), shapes[0] == shapes[1]))
+        out.append(('both strings are cut the same way on the diff side: %s / %s' % tuple(shapes), shapes[0] == shapes[1], 'content'))
     fvar = f.args.args[0].arg
     cuts = [n for n in _ast.walk(f) if isinstance(n, _ast.Assign) and len(n.targets) == 1 and isinstance(n.targets[0], _ast.Name)
             and n.targets[0].id == fvar and any(isinstance(x, _ast.Name) and x.id == fvar for x in _ast.walk(n.value))]
-    out.append(('flatten_list_of_string_diff cuts its string argument in exactly one place', len(cuts) == 1))
+    out.append(('flatten_list_of_string_diff cuts its string argument in exactly one place', len(cuts) == 1, 'shape'))
     if len(cuts) == 1 and shapes:
         ps = shape(cuts[0].value, fvar)
-        out.append(('differ and patcher cut strings into lines the same way: %s (diff side) vs %s (patch side)' % (shapes[0], ps), ps == shapes[0]))
+        out.append(('differ and patcher cut strings into lines the same way: %s (diff side) vs %s (patch side)' % (shapes[0], ps), ps == shapes[0], 'content'))
+    return out
+
+
+# ------------------------------------------------------------------------------------------ C09: ordering clause, structural part
+def c09_order_obligations(repo):
+    """The ordering clause of C09 rests on three facts about the code, each an obligation on the current source:
+      (1) MergeDecisionBuilder.validated returns sorted(self.decisions, key=_sort_key, reverse=True);
+      (2) _sort_key is an elementwise map of common_path: one loop over k.common_path, on every path through the loop body exactly
+          one element is appended to the result, built from the current path element alone, nothing else writes the result;
+      (3) every appended element is a tuple whose first component is a string (the constant '' for list indices, the key itself for
+          dict keys), so that Python can compare any two of them.
+    From these, by the meaning of Python's list comparison (a proper prefix is smaller) and of sorted(reverse=True): the key of a
+    decision inside a sub-document has the key of every enclosing path as a proper prefix, hence is larger, hence sorts first; and
+    ('', -i) makes higher list indices sort first.  [semantics of list/tuple comparison and of sorted: assumed]
+    Returns (text, ok, kind): kind 'shape' = the code is not written in the recognised form (no statement is made, the bounded
+    ordering oracle decides); kind 'content' = the recognised form says something else than the clause needs."""
+    import ast as _ast
+    import os as _os
+    tree = _ast.parse(open(_os.path.join(repo, 'nbdime', 'merging', 'decisions.py')).read())
+    out = []
+    cls = next((n for n in tree.body if isinstance(n, _ast.ClassDef) and n.name == 'MergeDecisionBuilder'), None)
+    val = next((n for n in (cls.body if cls else []) if isinstance(n, _ast.FunctionDef) and n.name == 'validated'), None)
+    rets = [n for n in _ast.walk(val) if isinstance(n, _ast.Return)] if val else []
+    ok = False
+    if len(rets) == 1 and isinstance(rets[0].value, _ast.Call) and _ast.unparse(rets[0].value.func) == 'sorted':
+        c = rets[0].value
+        kw = {k.arg: k.value for k in c.keywords}
+        ok = (len(c.args) == 1 and _ast.unparse(c.args[0]) == 'self.decisions' and set(kw) == {'key', 'reverse'} and
+              _ast.unparse(kw['key']) == '_sort_key' and isinstance(kw['reverse'], _ast.Constant) and kw['reverse'].value is True)
+    recognised = len(rets) == 1 and isinstance(rets[0].value, _ast.Call) and _ast.unparse(rets[0].value.func) == 'sorted'
+    out.append(('validated() returns sorted(self.decisions, key=_sort_key, reverse=True)', ok, 'content' if recognised else 'shape'))
+    fn = next((n for n in tree.body if isinstance(n, _ast.FunctionDef) and n.name == '_sort_key'), None)
+    if fn is None:
+        return out + [('_sort_key exists', False, 'shape')]
+    body = [s for s in fn.body if not (isinstance(s, _ast.Expr) and isinstance(s.value, _ast.Constant))]
+    shape = (len(body) == 3 and isinstance(body[0], _ast.Assign) and isinstance(body[0].value, _ast.List) and not body[0].value.elts and
+             isinstance(body[1], _ast.For) and isinstance(body[2], _ast.Return))
+    out.append(('_sort_key is: result = []; one for loop; return result', shape, 'shape'))
+    if not shape:
+        return out
+    res_name = body[0].targets[0].id if isinstance(body[0].targets[0], _ast.Name) else None
+    loop = body[1]
+    out.append(('the loop runs over <arg>.common_path and the result variable is returned',
+                res_name is not None and _ast.unparse(loop.iter) == '%s.common_path' % fn.args.args[0].arg and
+                isinstance(loop.target, _ast.Name) and _ast.unparse(body[2].value) == res_name and not loop.orelse, 'shape'))
+    var = loop.target.id if isinstance(loop.target, _ast.Name) else '?'
+
+    def appends(stmts):
+        "set of possible numbers of result.append(..) executions over the paths through stmts; None if control leaves the loop body"
+        counts = {0}
+        for st in stmts:
+            if isinstance(st, (_ast.Break, _ast.Continue, _ast.Return, _ast.Raise)):
+                return None
+            if isinstance(st, _ast.If):
+                a, b = appends(st.body), appends(st.orelse)
+                if a is None or b is None:
+                    return None
+                counts = {x + y for x in counts for y in (a | b)}
+            elif isinstance(st, (_ast.For, _ast.While, _ast.Try, _ast.With)):
+                return None
+            else:
+                n = sum(1 for c in _ast.walk(st) if isinstance(c, _ast.Call) and _ast.unparse(c.func) == '%s.append' % res_name)
+                counts = {x + n for x in counts}
+        return counts
+    cnt = appends(loop.body)
+    out.append(('every path through the loop body appends exactly one element', cnt == {1}, 'content' if cnt is not None else 'shape'))
+    other_writes = [n for n in _ast.walk(loop) if isinstance(n, _ast.Name) and n.id == res_name and isinstance(n.ctx, _ast.Store)] + \
+                   [c for c in _ast.walk(loop) if isinstance(c, _ast.Call) and isinstance(c.func, _ast.Attribute) and isinstance(c.func.value, _ast.Name)
+                    and c.func.value.id == res_name and c.func.attr != 'append']
+    out.append(('nothing but append touches the result inside the loop', not other_writes, 'content'))
+    calls = [c for c in _ast.walk(loop) if isinstance(c, _ast.Call) and _ast.unparse(c.func) == '%s.append' % res_name]
+    for c in calls:
+        arg = c.args[0] if c.args else None
+        names = {n.id for n in _ast.walk(arg) if isinstance(n, _ast.Name)} if arg is not None else {'?'}
+        out.append(('appended element %s is built from the current path element alone' % _ast.unparse(c), names <= {var}, 'content'))
+        first_str = isinstance(arg, _ast.Tuple) and arg.elts and (
+            (isinstance(arg.elts[0], _ast.Constant) and isinstance(arg.elts[0].value, str)) or
+            (isinstance(arg.elts[0], _ast.Name) and arg.elts[0].id == var))
+        out.append(('appended element %s is a tuple led by a string (\'\' or the key itself)' % _ast.unparse(c), bool(first_str), 'content'))
+        if isinstance(arg, _ast.Tuple) and len(arg.elts) == 2 and isinstance(arg.elts[0], _ast.Constant):
+            out.append(('list indices are keyed by (\'\', -index), so higher indices sort first under reverse=True: %s' % _ast.unparse(arg),
+                        arg.elts[0].value == '' and _ast.unparse(arg.elts[1]) == '-%s' % var, 'content'))
     return out
